@@ -362,14 +362,73 @@ def run(prog, tier):
                         al = allocs[d]
                         size = al.args[0] if al.name == 'malloc' else al.args[0] * al.args[1]
                         diff = size - e.args[2]
-                        iv = it.interval_of(diff, p)
-                        ok = diff.is_zero() or (iv.lo is not None and iv.lo >= 0)
+                        ok = diff.is_zero() or nonneg(it, p, diff)
                         chk.decide(ok, 'copy-fits-allocation', f['unit'], name, 'memcpy@%d' % e.node['ln'], '%s:%d' % (f['rel'], e.node['ln']),
                                    'memcpy writes %s bytes into a block allocated with %s bytes' % (e.args[2].canon()[:80], size.canon()[:80]),
                                    why='copied size equals the allocated size')
     chk.floor('memcpy into fresh allocations', nm, 12)
     spline_rows(prog, chk, tier)
+    destructors(prog, chk)
     return chk
+
+
+def destructors(prog, chk):
+    """(h) "every object it hands out can be released exactly once with its documented free function, after which the
+    process holds no memory": each documented free function releases every pointer field of its record, each once, and the
+    record last (the structural rule C15 applies to the two catalogue records, applied here to all four record types)."""
+    from rules import c15
+    n = 0
+    for fname in ('FreeCompoundData', 'FreeCompoundDataNIST', 'FreeRadioNuclideData', 'Crystal_Free'):
+        f = prog.func(fname, required=False)
+        if f is None or not f.get('params'):
+            chk.bad('destructor-complete', 'include/xraylib.h', fname, 'defined', 'include/xraylib.h', 'documented free function %s is not defined' % fname)
+            continue
+        t = f['params'][0]['T'].replace('struct ', '').replace('*', '').strip()
+        rec = prog.record(t)
+        if rec is None:
+            chk.inconclusive('destructor-complete', fname, 'record type %s not found' % t)
+            continue
+        shim = Check('C04', 'quick', 'other', '', [], [])
+        c15.destructor(prog, shim, f, rec, f['unit'])
+        for rule, inst, why, loc in shim.held:
+            n += 1
+            chk.ok('destructor-complete', inst, why, loc)
+        for v in shim.violations:
+            n += 1
+            chk.bad('destructor-complete', v['unit'], v['function'], v['instance'], v['loc'], v['message'])
+    chk.floor('destructor obligations', n, 15)
+
+
+def nonneg(it, p, d, depth=0):
+    """d >= 0 on this path: by its interval, after dividing out a positive common factor (sizeof), or after taking out a
+    sub-expression that is known to be non-negative (a fact, or the array invariant n_alloc - n_crystal)."""
+    iv = it.interval_of(d, p)
+    if iv.lo is not None and iv.lo >= 0:
+        return True
+    if depth > 3 or not d.d.is_const():
+        return False
+    syms = sorted(d.n.symbols())
+    # common positive factor
+    for s_ in syms:
+        if not s_.startswith('sizeof('):
+            continue
+        if all(any(x == s_ for x, _ in mono) for mono in d.n.monomials()):
+            from xvlib.normform import Poly
+            qt = {}
+            for mono, coef in d.n.monomials().items():
+                m2 = tuple((x, pw - 1) if x == s_ else (x, pw) for x, pw in mono)
+                qt[tuple((x, pw) for x, pw in m2 if pw)] = coef
+            return nonneg(it, p, Rat(Poly(qt), d.d), depth + 1)
+    # take out X.n_alloc - X.n_crystal
+    for s_ in syms:
+        if s_.endswith('.n_alloc'):
+            base = s_[:-len('.n_alloc')]
+            if base + '.n_crystal' in syms:
+                k_ = Rat.sym(s_) - Rat.sym(base + '.n_crystal')
+                rest = d - k_
+                if len(rest.n.symbols()) < len(syms):
+                    return nonneg(it, p, rest, depth + 1)
+    return False
 
 
 def spline_rows(prog, chk, tier):
